@@ -261,12 +261,15 @@ pub trait BaseVector<T: RealNumber>: Clone + Debug {
         let mut sum = T::zero();
         let div = T::from_usize(n).unwrap();
         for i in 0..n {
-            let xi = self.get(i);
-            mu += xi;
-            sum += xi * xi;
+            mu += self.get(i);
         }
         mu /= div;
-        sum / div - mu.powi(2)
+        // two passes: E[x^2] - E[x]^2 cancels catastrophically when the data share a large offset
+        for i in 0..n {
+            let d = self.get(i) - mu;
+            sum += d * d;
+        }
+        sum / div
     }
     /// Computes the standard deviation.
     fn std(&self) -> T {
